@@ -1850,6 +1850,21 @@ def check_C08(res):
         t.line(0, "MODE #m +hh carol dave")
         t.line(0, "MODE #m +v erin")
         t.line(0, rng.choice(["MODE #m +a bob", "MODE #m +oh erin erin", "MODE #m +t", "MODE #m +m", "MODE #m +i", "MODE #m +k key", "MODE #m +l 5"]))
+        # "shown by later NAMES / WHO queries": members holding several ranks at once, asked for by a client that negotiated
+        # multi-prefix and by one that did not
+        t.open(6)
+        t.line(6, "CAP LS 302")
+        t.line(6, "CAP REQ :multi-prefix")
+        t.line(6, "NICK mpx")
+        t.line(6, "USER mpx 8 * :Multi Prefix")
+        t.line(6, "CAP END")
+        t.line(6, "JOIN #m")
+        t.line(0, "MODE #m +hv bob bob")
+        t.line(0, "MODE #m +h alice")
+        t.line(0, "MODE #m +av carol carol")
+        for asker in (6, 0, 4):
+            t.line(asker, "NAMES #m")
+            t.line(asker, "WHO #m")
         order = [(2, "bob"), (2, "dave"), (2, "erin"), (3, "carol"), (4, "bob"), (1, "carol"), (2, "alice"), (1, "alice"), (3, "bob")]
         rng.shuffle(order)
         for actor, victim in order[:6]:
@@ -1902,7 +1917,7 @@ def check_C08(res):
         sweep.append(t)
 
     def orc(t, steps):
-        return mode_oracle(t, steps) + rank_oracle(t, steps) + join_oracle(t, steps) + msg_oracle(t, steps)
+        return mode_oracle(t, steps) + rank_oracle(t, steps) + join_oracle(t, steps) + msg_oracle(t, steps) + prefix_oracle(t, steps)
     r = l2_campaign(res, "C08", n, 50, prof, traces=sweep, oracle=orc)
     res.coverage.update({
         "evaluations": r["steps"], "distinct_nontrivial": sum(len(t.events) for t in sweep),
@@ -2270,6 +2285,52 @@ def strip_rank(tok, known):
         if all(c in "~&@%+" for c in tok[:j]) and tok[j:] in known:
             return tok[j:]
     return tok.lstrip("~&@%+")
+
+
+def prefix_oracle(t, steps):
+    """ "shown by later NAMES / WHO queries": every name in a 353 line and every 352 flag field carries the member's rank
+    prefixes as the channel holds them after the step - all of them (~&@%+ order) for a client that negotiated multi-prefix,
+    the highest one otherwise (seeded C08-g)"""
+    fails = []
+    multi = set()
+    for s in sorted(steps, key=lambda s: s["k"]):
+        ev = t.events[s["k"]]
+        out = s.get("out") or {}
+        if ev[0] == "L" and isinstance(ev[2], str) and re.match(r"^\s*CAP\s+REQ\b", ev[2], re.I):
+            if any(re.search(r" CAP \S+ ACK :?.*multi-prefix", l) for l in out.get(str(ev[1]), [])):
+                multi.add(str(ev[1]))
+        if ev[0] in ("X",) or str(ev[1]) in [str(c) for c in (s.get("eof") or [])]:
+            multi.discard(str(ev[1]))
+        d = s.get("dump")
+        if not d or s.get("panics"):
+            continue
+        for c, ls in out.items():
+            for l in ls:
+                m = re.match(r"^:\S+ 353 \S+ [=@*] (\S+) :(.*)$", l)
+                if m and m.group(1) in d["channels"]:
+                    mem = d["channels"][m.group(1)]["users"]
+                    for tok in m.group(2).split(" "):
+                        if not tok:
+                            continue
+                        n = strip_rank(tok, mem)
+                        if n not in mem:
+                            continue
+                        allp = "".join(p for p, f in zip("~&@%+", "qaohv") if f in mem[n])
+                        want = allp if c in multi else allp[:1]
+                        if tok[:len(tok) - len(n)] != want:
+                            fails.append(("NAMES %s shows %r to connection %s (%s multi-prefix); the member holds ranks %r, so the prefix is %r" % (
+                                m.group(1), tok, c, "with" if c in multi else "without", mem[n], want), {"step": s["k"]}))
+                            return fails
+                m = re.match(r"^:\S+ 352 \S+ (\S+) \S+ \S+ \S+ (\S+) ([HG])(\*?)(\S*) :", l)
+                if m and m.group(1) in d["channels"] and m.group(2) in d["channels"][m.group(1)]["users"]:
+                    fl = d["channels"][m.group(1)]["users"][m.group(2)]
+                    allp = "".join(p for p, f in zip("~&@%+", "qaohv") if f in fl)
+                    want = allp if c in multi else allp[:1]
+                    if m.group(5) != want:
+                        fails.append(("WHO %s shows the flags %r for %s to connection %s (%s multi-prefix); the member holds ranks %r, so the prefixes are %r" % (
+                            m.group(1), m.group(3) + m.group(4) + m.group(5), m.group(2), c, "with" if c in multi else "without", fl, want), {"step": s["k"]}))
+                        return fails
+    return fails
 
 
 def views_oracle(t, steps):
